@@ -1,1 +1,29 @@
 // hook file for ntp-proto/src/source.rs: declares the per-property harness modules
+#[cfg(any(verif_all, verif_c13))]
+#[path = "/verif/harness/ntp-proto/c13.rs"]
+mod c13;
+#[cfg(any(verif_all, verif_c11))]
+#[path = "/verif/harness/ntp-proto/c11.rs"]
+mod c11;
+// --- builder S2 (C07 C08 C09 C10 C12 C14): shared machinery + one driver module per property
+#[cfg(any(verif_all, verif_c07, verif_c08, verif_c09, verif_c10, verif_c12, verif_c14))]
+#[path = "/verif/harness/ntp-proto/s2_source.rs"]
+mod s2_source;
+#[cfg(any(verif_all, verif_c07))]
+#[path = "/verif/harness/ntp-proto/c07.rs"]
+mod c07;
+#[cfg(any(verif_all, verif_c08))]
+#[path = "/verif/harness/ntp-proto/c08.rs"]
+mod c08;
+#[cfg(any(verif_all, verif_c09))]
+#[path = "/verif/harness/ntp-proto/c09.rs"]
+mod c09;
+#[cfg(any(verif_all, verif_c10))]
+#[path = "/verif/harness/ntp-proto/c10.rs"]
+mod c10;
+#[cfg(any(verif_all, verif_c12))]
+#[path = "/verif/harness/ntp-proto/c12.rs"]
+mod c12;
+#[cfg(any(verif_all, verif_c14))]
+#[path = "/verif/harness/ntp-proto/c14.rs"]
+mod c14;
